@@ -175,6 +175,14 @@ fn periodic(w: &[u8], limit: usize, total: usize, fill_kind: u8, at_end: bool) -
     l
 }
 
+/// true when `v` is not valid UTF-8 for another reason than a character cut short at its very end
+fn multibyte_ok(v: &[u8]) -> bool {
+    match std::str::from_utf8(v) {
+        Ok(_) => true,
+        Err(e) => e.error_len().is_some(),
+    }
+}
+
 fn periodic_cr_free(t: &mut Tape) -> Vec<u8> {
     let ws = line_beginnings();
     // the five beginnings of the keyword itself half of the time
@@ -312,6 +320,20 @@ fn gen_case(t: &mut Tape) -> Pair {
             }
             l.truncate(total);
             l.retain(|&b| b != b'\r');
+            // one input in six begins with characters that text tooling ignores or adds (a byte order mark, a zero-width space,
+            // blanks, a NUL): they count towards the 107 bytes like anything else
+            if t.chance(1, 6) {
+                let pre: &[u8] = *t.pick(&[&b"\xef\xbb\xbf"[..], b"\xe2\x80\x8b", b" ", b"\t", b"\0", b"\n", b"\xc2\xa0", b"\xef\xbb\xbf\xef\xbb\xbf"]);
+                let keep = if t.coin() { total } else { total + pre.len() };
+                let mut v = pre.to_vec();
+                v.extend_from_slice(&l);
+                v.truncate(keep.max(pre.len()));
+                // never cut inside a multi-byte character of the tail: drop a dangling partial character
+                while std::str::from_utf8(&v).is_err() && !multibyte_ok(&v) {
+                    v.pop();
+                }
+                l = v;
+            }
             l
         }
         3 => {
